@@ -393,6 +393,33 @@ fn check_base(base: &Vec<Sym>, acc: &mut Acc) {
     }
 }
 
+/// Long inputs: n operands joined by one operator; every operand parenthesised (spaced, tight),
+/// every gap widened, every AND spelt out / left implicit — against the plain spelling.
+fn long_forms(acc: &mut Acc) {
+    for &n in &[8usize, 16, 32, 33, 63, 64, 65, 66, 100, 128, 129, 200, 255, 256, 257] {
+        for (op, alt) in [("-o", "-or"), ("-a", "-and"), (",", ",")] {
+            let prim = |k: usize| format!("-name n{k}");
+            let plain: Vec<String> = (0..n).map(prim).collect();
+            let canon = plain.join(&format!(" {op} "));
+            if canon.len() > 4000 {
+                continue;
+            }
+            let spaced: Vec<String> = plain.iter().map(|p| format!("( {p} )")).collect();
+            let tight: Vec<String> = plain.iter().map(|p| format!("({p})")).collect();
+            let quoted: Vec<String> = (0..n).map(|k| format!("-name 'n{k}'")).collect();
+            acc.transitions += 6;
+            judge(&canon, &spaced.join(&format!(" {op} ")), &["many-parens-spaced"], acc);
+            judge(&canon, &tight.join(&format!(" {op} ")), &["many-parens-tight"], acc);
+            judge(&canon, &plain.join(&format!("\t{op}\n")), &["many-sep-mixed"], acc);
+            judge(&canon, &plain.join(&format!(" {alt} ")), &["many-operator-synonym"], acc);
+            judge(&canon, &quoted.join(&format!(" {op} ")), &["many-quote-single"], acc);
+            if op == "-a" {
+                judge(&canon, &plain.join(" "), &["many-and-implicit"], acc);
+            }
+        }
+    }
+}
+
 fn blank_inputs(acc: &mut Acc) {
     let blanks = [' ', '\t', '\r', '\n'];
     for len in 0..=4u32 {
@@ -414,6 +441,7 @@ pub fn run(ctx: &Ctx) -> i32 {
     let mut acc = par_items(&bs, check_base);
     let mut b = Acc::new();
     blank_inputs(&mut b);
+    long_forms(&mut b);
     acc = acc.merge(b);
     let mut extra = serde_json::Map::new();
     extra.insert("base_expressions".into(), json!(bs.len()));
@@ -424,7 +452,7 @@ pub fn run(ctx: &Ctx) -> i32 {
             level: "model_checking",
             exhaustive: true,
             rule: "state = (base sentence, set of spelling deviations); deviation-bounded exploration: 0, 1 and 2 simultaneous departures from the canonical spelling at every site with every value, plus all sites of one kind at once; distinct = distinct (options, tree) results".into(),
-            bound: format!("every grammar sentence of <= {n} symbols over 15 symbols (5 primaries, the option words -depth and -threads 3, so options-only and option-led inputs occur, and two name tests whose value contains the other quote character); deviation bound 2; all 341 blank-only inputs of length 0..4"),
+            bound: format!("every grammar sentence of <= {n} symbols over 15 symbols (5 primaries, the option words -depth and -threads 3, so options-only and option-led inputs occur, and two name tests whose value contains the other quote character); deviation bound 2; all 341 blank-only inputs of length 0..4; chains of 8..257 operands (around every power of two) with every operand parenthesised / every gap widened / every operator replaced by its synonym / every value quoted"),
             assumptions: vec![
                 "insignificant spelling = blanks (space, tab, CR, LF) between words and at the ends, -a/-and/juxtaposition, -o/-or, redundant parentheses (spaced or touching their operand), quoting style of string-class arguments".into(),
                 "quoting of numeric arguments is unspecified and never varied".into(),
